@@ -35,7 +35,7 @@ resolve = Fn(F, "parse_and_resolve_includes", slot="parser", ret="res", key="par
         Rewrite("included_filename.as_ref(),", "included_filename.clone(),", rule="R16", why="`String::as_ref()` passed as `S: Borrow<str>` (no vstd specification) -> the String itself is passed (a String is a Borrow<str> with the same text; ASSUMED via name_text)"),
         Rewrite(r"root_ast\.nodes\.splice\(\s*node_index\.\.\(node_index \+ 1\),\s*inner_ast\.nodes\);", "verif_splice_replace(&mut root_ast.nodes, node_index, inner_ast.nodes);", regex=True, rule="R27", why="Vec::splice over a one-element range -> prelude wrapper (the element replaced by the items)"),
     ],
-    inserts=[Insert("seen_filenames.push(included_filename.clone());", "\n            proof { assert(seen_filenames@.drop_last() =~= old(seen_filenames)@); }", where="after", why="the stack below the new top is the old stack"),
+    inserts=[Insert("            let inner_ast = parse_and_resolve_includes(", "            proof { assert(seen_filenames@.drop_last() =~= old(seen_filenames)@); }\n", where="before", why="the stack below the new top is the old stack"),
              Insert("verif_splice_replace(&mut root_ast.nodes, node_index, inner_ast.nodes);", "\n            proof { assert(root_ast.nodes@.len() >= node_index + inner_ast_len); }", where="after", why="the spliced vector holds the included nodes after position node_index")],
     closures={1: ("|n: &AstAny| -> (r: bool)\n            ensures r == (*n is DirectiveOnce)\n       ", "")},
     loops={1: Loop(invariant=[
